@@ -47,6 +47,8 @@ def wtriples(ws):
 @st.composite
 def fitted_cases(draw, family=None, cheap=True, profiles=None):
     b = draw(zoo.baseline(family=family, cheap=cheap, full_year=False, profiles=profiles))
+    if b["family"] == "hourly" and draw(st.integers(0, 3)) == 0:
+        b["net_export"] = True  # solar site exporting more than it uses: mean usage below zero, some normalised metrics undefined
     rs = [draw(zoo.reporting(b)) for _ in range(3)]
     rs[0]["T_shift"] = 0.0
     rs[1]["T_shift"] = draw(st.sampled_from([25.0, -30.0]))
@@ -92,6 +94,10 @@ def check_formula(doc, out, key, c, rec):
             rec.violation(key + "/formula/model_split", c, "%s routed to %r, document says %r" % (out.index[i], got_split[i], ref["model_split"][i]))
             return "mismatch"
     return "ok"
+
+
+ALIASES = {"America/Chicago": "US/Central", "America/New_York": "US/Eastern", "America/Los_Angeles": "US/Pacific", "Europe/London": "GB",
+           "UTC": "Etc/UTC", "Australia/Sydney": "Australia/NSW", "Asia/Tokyo": "Japan", "Europe/Berlin": "Europe/Berlin"}
 
 
 def judge_fitted(c, rec):
@@ -179,6 +185,14 @@ def judge_fitted(c, rec):
     if fam in ("daily", "billing"):
         sloped = any(sm["coefficients"]["model_type"] != "tidd" for sm in doc["submodels"].values())
     sets = [("baseline", data)] + [("r%d" % i, zoo.build_reporting(b, r)) for i, r in enumerate(c["reporting"])]
+    # the same reporting period stamped in another name of the baseline's zone (US/Central for America/Chicago ...): whatever the
+    # original model does with it - predict or refuse - the stored model does too
+    alias = ALIASES.get(b["tz"])
+    if alias and fam != "caltrack":
+        try:
+            sets.append(("alias-zone", zoo.build_reporting(dict(b, tz=alias), c["reporting"][0])))
+        except Exception as e:
+            rec.note("alias-zone-data-raises:" + type(e).__name__)
     Tb = data.df["temperature"]
     lo, hi = float(Tb.min()), float(Tb.max())
     for name, rep in sets:
@@ -186,6 +200,12 @@ def judge_fitted(c, rec):
             p1 = zoo.predict(m, b, rep)
         except Exception as e:
             rec.note("original-predict-raises:" + type(e).__name__)
+            try:
+                zoo.predict(m2, b, rep)
+                rec.violation("%s/reloaded-predicts-where-original-refuses" % fam, c, "original raises %s on %s, the reloaded model returns a frame" % (type(e).__name__, name))
+            except Exception as e2:
+                if type(e2) is not type(e):
+                    rec.violation("%s/reloaded-refuses-differently" % fam, c, "original raises %s on %s, the reloaded model %s" % (type(e).__name__, name, type(e2).__name__))
             continue
         try:
             p2 = zoo.predict(m2, b, rep)
